@@ -239,7 +239,7 @@ class CharacterClass(MutableSet[int]):
                     # XSD 1.1 supports Is prefix to match Unicode blocks
                     if not self.xsd_version or not part[3:].startswith('Is'):
                         raise
-                    self.positive -= UnicodeSubset([(0, maxunicode + 1)])
+                    self.clear()  # an unknown block matches every character
                 else:
                     if part.startswith('\\p'):
                         self._discard_subset(subset)
